@@ -510,6 +510,9 @@ func collect(out *Outcome, rd *simReader, wr *simWriter, cb *simCallback, d *sim
 	out.ReaderFired, out.ReaderErr = rd.Fired, rd.Err
 	out.EndlessReads, out.WriterStalled = rd.EndlessReads, wr.Stalled
 	out.ReaderStalled = rd.Stalled
+	if rd.SlowFired {
+		out.Probes["reader.slow-read"]++
+	}
 	out.ReaderClosed = rd.Closed
 	out.WriterFired, out.WriterErr = wr.Fired, wr.Err
 	out.WriterRefused = wr.Refused
